@@ -54,6 +54,25 @@ pub fn handle(op: &str, req: &Value) -> Option<Value> {
                         Err(t) => json!({"err": t}),
                     }
                 },
+                "try_lock_with_wait_tracking" => {
+                    use tensor_chain::deadlock::WaitForGraph;
+                    let g = WaitForGraph::new();
+                    let tx = req["tx"].as_u64().unwrap_or(0);
+                    // the requester already waits for an outside transaction: a grant must clear that
+                    g.add_wait(tx, u64::MAX - 1, None);
+                    let keys: Vec<String> = req["keys"].as_array().into_iter().flatten().map(kname).collect();
+                    let r = lm.try_lock_with_wait_tracking(tx, &keys, &g, None);
+                    let mut waits: Vec<u64> = g.waiting_for(tx).into_iter().collect();
+                    waits.sort_unstable();
+                    match r {
+                        Ok(h) => json!({"ok": h, "waits": waits}),
+                        Err(w) => json!({"err": w.blocking_tx_id, "waits": waits}),
+                    }
+                },
+                "serialize_restore" => {
+                    let lm2 = LockManager::from_serializable(lm.to_serializable());
+                    return Some(json!({"before": before, "after": dump(&lm2), "result": null}));
+                },
                 "release" => { lm.release(req["tx"].as_u64().unwrap_or(0)); json!(null) },
                 "release_by_handle" => { lm.release_by_handle(req["handle"].as_u64().unwrap_or(0)); json!(null) },
                 "cleanup_expired" => json!({"removed": lm.cleanup_expired()}),
